@@ -39,6 +39,8 @@ type SW struct {
 	crashWithin string
 	// ParThreshold is the parallel-deletion threshold of this run
 	ParThreshold uint64
+	// Metrics: the Store is built with its metrics on (configuration knob)
+	Metrics bool
 }
 
 func newSW(s *core.Sim, park bool) *SW {
@@ -49,6 +51,7 @@ func newSW(s *core.Sim, park bool) *SW {
 		IndexCacheSize: core.Pick(s.Tape, "icache", cacheKnob),
 	}
 	w.Flav = core.Pick(s.Tape, "flavour", []string{"plain", "ctx", "snap"})
+	w.Metrics = s.Tape.Coin("store-metrics", 1, 3)
 	first := core.Pick(s.Tape, "first", []uint64{1, 1, 7, 1000})
 	w.Ch = simhdr.NewChain("sim-chain", first, time.Now().Add(-1000*time.Hour), 3*time.Second)
 	w.Disk = simdisk.New("d0", s)
@@ -86,7 +89,11 @@ func (w *SW) Open() error {
 	w.opens++
 	_, fin := w.S.Do(fmt.Sprintf("open%d", w.opens), opBudget, func() {
 		var st *store.Store[*H]
-		st, err = store.NewStore[*H](w.Disk.Flavour(w.Flav), store.WithParams(w.P))
+		opts := []store.Option{store.WithParams(w.P)}
+		if w.Metrics {
+			opts = append(opts, store.WithMetrics())
+		}
+		st, err = store.NewStore[*H](w.Disk.Flavour(w.Flav), opts...)
 		if err != nil {
 			return
 		}
